@@ -20,7 +20,7 @@ LEVEL = "exploration"
 MANIFEST = {
     "technique": "bounded-exhaustive enumeration of all ordered level selections (length <= 3 of 5 nodes; structured selections of 17 nodes) x argument forms x modes; differential oracle (single-level and full-column solves)",
     "text": "Every ordered selection of up to three distinct levels of a five-node column (85 selections, so every permutation pattern occurs), plus ascending/descending/interleaved/with-top selections of a 17-node column, in scalar, list and ndarray form, is solved in footprint and dispersion mode, numerically and analytically, in both precisions; each returned slice and its reported height are compared with the single-level and the full-column solve.",
-    "note": "Slices are compared to 1e-12 (double) / 1e-6 (single) of the field maximum - the arithmetic per level is the same in all three calls; heights must be equal exactly.",
+    "note": "Additionally every level set of size 2-3 is requested in all its orders (list and ndarray form, twice) through one attached result cache in footprint mode, so an order-insensitive cache key shows here as well as in C15. Slices are compared to 1e-12 (double) / 1e-6 (single) of the field maximum - the arithmetic per level is the same in all three calls; heights must be equal exactly.",
 }
 
 
@@ -110,6 +110,55 @@ def case_levels(case):
     return {"v": v[:6], "nt": True, "n": cnt[0], "obs": {"unsorted": unsorted, "forms": [f for f, _ in forms]}}
 
 
+def cache_cases(tier):
+    sets = [c for k in (2, 3) for c in itertools.combinations(range(5), k)]
+    for sset in sets:
+        for pr in (("double",) if tier == "quick" else ("double", "single")):
+            yield {"set": list(sset), "prec": pr}
+
+
+def case_cached(case):
+    """the same level SET requested in every ORDER, one after the other, through one result cache (footprint mode):
+    every answer must still be the slices of the requested levels in the requested order."""
+    from bldfm.cache import GreensFunctionCache
+
+    S0 = sl.solver()
+    z, prof = column(5, "var")
+    nx, ny, dom = 6, 4, (60.0, 60.0)
+    q = np.zeros((ny, nx))
+    kw = dict(modes=(6, 4), halo=13.0, precision=case["prec"], footprint=True, meas_pt=(20.0, 15.0))
+    tol = 1e-12 if case["prec"] == "double" else 1e-6
+    cdir = os.path.join(os.getcwd(), "c10cache_%s" % core.case_hash(case))
+    cache = GreensFunctionCache(cdir)
+    _, cfull, ffull = S0(q, z, prof, dom, list(range(5)), **kw)
+    sc_c, sc_f = max(np.abs(cfull).max(), 1e-300), max(np.abs(ffull).max(), 1e-300)
+    v = []
+    n = 1
+    orders = list(itertools.permutations(case["set"]))
+    try:
+        for rep in range(2):  # second round: everything is served from the cache
+            for order in orders:
+                for form in (list(order), np.array(order)):
+                    g, c, f = S0(q, z, prof, dom, form, cache=cache, **kw)
+                    n += 1
+                    Z = np.asarray(g[2]).reshape(len(order), ny, nx)
+                    for k, l in enumerate(order):
+                        ok = np.all(Z[k] == z[l]) and sl.relerr(np.asarray(c)[k], cfull[l], sc_c) <= tol and sl.relerr(np.asarray(f)[k], ffull[l], sc_f) <= tol
+                        if not ok:
+                            held = [j for j in range(5) if sl.relerr(np.asarray(f)[k], ffull[j], sc_f) <= tol]
+                            v.append({"sub": "cached-order", "sig": "cached-order/%s" % ("first-round" if rep == 0 else "served-from-cache"),
+                                      "msg": "levels=%r requested through a cache that already holds the same level set in other orders %r: slice %d reports height %r and holds level(s) %r, requested level %d (z=%r)"
+                                      % (list(order), [list(o) for o in orders[: orders.index(order)]], k, np.unique(Z[k]).tolist(), held, l, z[l])})
+                            break
+                    if len(v) >= 4:
+                        break
+    finally:
+        import shutil
+
+        shutil.rmtree(cdir, ignore_errors=True)
+    return {"v": v[:4], "nt": True, "n": n, "obs": {"orders": len(orders)}}
+
+
 def run(ctx):
     os.environ["VERIF_SEED"] = str(ctx.seed)
     core.warm_numba()
@@ -119,4 +168,5 @@ def run(ctx):
         "(scalar and numpy-int forms for single levels); distinct = distinct (selection, mode) tuples; all non-trivial; evaluations counts solver executions"
     )
     res = ctx.run_cases(case_levels, cases(ctx.tier), sub="levels")
+    ctx.run_cases(case_cached, cache_cases(ctx.tier), sub="levels-through-cache")
     ctx.cov["unsorted_selections_cases"] = int(sum(1 for r in res if r.get("obs", {}).get("unsorted")))
